@@ -61,6 +61,33 @@ def _value(e, param, env):
     raise Unrecognised("operand %s" % str(e)[:80])
 
 
+def _pat(p, cur):
+    """does the pattern match the value cur (None | ('some', x) | a string)"""
+    k = p.get("k")
+    if k == "PWild":
+        return True
+    if k == "PRef":
+        return _pat(p["pat"], cur)
+    if k == "POr":
+        return any(_pat(c, cur) for c in p["cases"])
+    if k == "PIdent":
+        if p["name"] == "None":
+            return cur is None
+        return True  # a binding
+    if k == "PPath":
+        if p["path"] == "None":
+            return cur is None
+        a = _atom(p["path"])
+        if a is not None:
+            return cur == a
+        raise Unrecognised("pattern path %s" % p["path"])
+    if k == "PTupleStruct" and p["path"] == "Some" and len(p["elems"]) == 1:
+        return isinstance(cur, tuple) and cur[0] == "some" and _pat(p["elems"][0], cur[1])
+    if k == "PLit":
+        raise Unrecognised("literal pattern")
+    raise Unrecognised("pattern %s" % k)
+
+
 def _eval(e, param, env, fns, depth=0):
     k = e.get("k")
     if k in ("Paren",):
@@ -93,6 +120,29 @@ def _eval(e, param, env, fns, depth=0):
         else:
             res = env["local"] == b[1]
         return res if e["op"] == "==" else not res
+    if k == "Match":
+        v = _value(e["e"], param, env)
+        if v == ("prefix",):
+            cur = None if env["prefix"] is None else ("some", env["prefix"])
+        elif v == ("local",):
+            cur = env["local"]
+        else:
+            raise Unrecognised("match on %s" % (v,))
+        for arm in e["arms"]:
+            if _pat(arm["pat"], cur):
+                if arm.get("guard") is not None:
+                    if not _eval(arm["guard"], param, env, fns, depth):
+                        continue
+                return _eval(arm["body"], param, env, fns, depth)
+        raise Unrecognised("no arm matches")
+    if k == "Lit" and e.get("t") == "bool":
+        return bool(e["v"]) if not isinstance(e["v"], str) else e["v"] == "true"
+    if k == "Path" and e.get("path") in ("true", "false"):
+        return e["path"] == "true"
+    if k == "If" and e.get("else") is not None:
+        c = _eval(e["cond"], param, env, fns, depth)
+        br = e["then"] if c else e["else"]
+        return _eval(br if isinstance(br, dict) else {"k": "Block", "body": br}, param, env, fns, depth)
     if k == "MethodCall" and e["m"] in ("is_none", "is_some") and not e["args"]:
         v = _value(e["recv"], param, env)
         if v == ("prefix",):
@@ -166,6 +216,19 @@ def declaration_predicates(ctx, rule):
         role = "declare" if "declare_ns" in calls else "bind" if "bind_attr_qname" in calls else None
         if role and len(flt) == 1:
             loops[role] = flt[0]
+        elif role and not flt and n["pat"].get("k") == "PIdent":
+            # `for attr in attrs { if pred(attr) { .. } }`  or  `for attr in attrs { if pred(attr) { continue; } .. }`
+            body = n["body"]
+            first = body[0]["e"] if body and body[0].get("k") == "ExprStmt" else None
+            if first is not None and first.get("k") == "If" and first.get("else") is None:
+                then = first["then"]
+                is_continue = len(then) == 1 and (then[0].get("e") or {}).get("k") == "Continue"
+                cond = first["cond"]
+                if is_continue and len(body) > 1:
+                    cond = {"k": "Unary", "op": "!", "e": cond}
+                elif len(body) != 1:
+                    return
+                loops[role] = {"k": "Closure", "params": [n["pat"]], "body": cond}
     walk(its[0]["body"] if isinstance(its[0]["body"], dict) else {"k": "Block", "body": its[0]["body"]}, visit)
     if set(loops) != {"declare", "bind"}:
         raise AnchorMissing("process_namespaces: the declaring and the binding pass over the filtered attributes (found %s)" % sorted(loops))
